@@ -75,7 +75,8 @@ static void gen_mul(const GenCtx &ctx, Case &c, int viewpct) {
     std::vector<int> thr = {16, 54, 64, kk, 2 * kk, 3 * kk, vf_cfg_mul_blocksize()};
     int cls = g::rng(0, 9);
     if (cls < 2) {  // thin/fat: delegation to the cubic code and inside it _mzd_mul_va vs transposed B
-      m = g::pick<int>({g::rng(1, 15), 16, 17, g::rng(1, capv)});
+      int bs = vf_cfg_mul_blocksize();  // the cubic kernels work in blocks of this many rows + a remainder
+      m = g::pick<int>({g::rng(1, 15), 16, 17, g::rng(1, capv), bs * g::rng(1, 2) + g::pick<int>({0, 0, 1, -1})});
       l = g::dim(capv, thr);
       n = g::pick<int>({g::rng(1, 53), 53, 54, 55, g::rng(1, capv)});
     } else if (cls < 4 && rt->param == 1) {  // table tails: l around multiples of 8k and k
